@@ -127,6 +127,21 @@ def run(ctx):
         dist["modes"][key] = dist["modes"].get(key, 0) + len(runs)
         if not _classify(ctx, what, env, runs, True, dist, distinct, samples, base):
             break
+    # weak-memory pass (oracle only: stale loads are not replayable against the SC model): VRT serves loads from the
+    # release/acquire view model, so a weakened order in set_value / on_finish / wait_slow becomes a failing schedule
+    nv = n // 2
+    dist["view"] = {"runs": 0, "stale_reads": 0}
+    for what, s0, cnt in [("promise", seed0 + 3 * n, nv), ("latch", seed0 + 3 * n, nv)] + [(w, s, c) for (w, s, c, e) in _load_corpus() if not e]:
+        env = {"VRT_MEM": "view"}
+        runs = ctx.econc(exe, None, [what], s0, cnt, env=env)
+        dist["view"]["runs"] += len(runs)
+        for r in runs:
+            for l in r["lines"]:
+                m = re.search(r" ev stats .* stale (\d+)", l)
+                if m:
+                    dist["view"]["stale_reads"] += int(m.group(1))
+        if not _classify(ctx, what, env, runs, False, dist, distinct, samples, base):
+            break
     # documented witness of the NoWrap hypothesis (not part of pass/fail): real code from the futex word reached after
     # 2^31 - k timed-out wait_for calls
     wr = ctx.econc(exe, drv, ["wrap"], 1, 3)
